@@ -43,7 +43,7 @@ LEVEL_TEXT = ("all interleavings at the stated pre-emption points for <= 4 calls
 
 JUMP = 1000001
 ALPHABET = (0, 1, 2, 3, JUMP)          # microseconds
-ALL_POINTS = ("acquire", "clock", "last", "log", "release")
+ALL_POINTS = ("acquire", "clock", "last", "log", "release", "released")
 SCHEDULE_CAP = 60000                     # per (config, sequence): never reached on a correct tree
 
 
@@ -63,22 +63,55 @@ if os.environ.get("VERIF_C31_BACKEND") == "threads":
     _greenlet = None
 
 
+class _Slot(object):
+    """A reusable greenlet: starting a fresh greenlet is far more expensive than switching to a parked
+    one, and an exploration runs hundreds of thousands of tiny histories."""
+
+    def __init__(self, main):
+        self.main = main
+        self.job = None
+        self.gl = _greenlet.greenlet(self._loop, parent=main)
+
+    def _loop(self):
+        while True:
+            job, self.job = self.job, None
+            job()
+            self.main.switch()
+
+
+_SLOTS = {"main": None, "free": []}
+
+
+def _take_slots(main, n):
+    if _SLOTS["main"] is not main:
+        _SLOTS["main"], _SLOTS["free"] = main, []
+    pool = [sl for sl in _SLOTS["free"] if not sl.gl.dead]
+    while len(pool) < n:
+        pool.append(_Slot(main))
+    _SLOTS["free"] = pool
+    return pool[:n]
+
+
 class _VT(object):
     def __init__(self, idx):
         self.idx = idx
         self.done = False
-        self.blocked_on = None
-        self.error = None
+        self.pending = "start"   # the operation this thread is parked in front of
+        self.want = None         # the lock it is about to take (enabled only while that lock is free)
+        self.calls_left = 0
         self.sem = None
         self.thread = None
         self.gl = None
 
+    def enabled(self):
+        return not self.done and (self.want is None or self.want.holder is None)
+
 
 class _World(object):
     """Scheduler of virtual threads: exactly one runs at a time and only hands control back at a
-    pre-emption point, when it blocks or when it finishes.  Backed by greenlets when available (no OS
-    scheduling latency) and by baton-passing OS threads otherwise; both give the same histories.
-    run() executes in the caller."""
+    pre-emption point or when it finishes.  A thread parked in front of a lock acquisition is enabled
+    only while the lock is free.  Backed by greenlets when available (no OS scheduling latency) and by
+    baton-passing OS threads otherwise; both give the same histories.  run() executes in the caller."""
 
     def __init__(self, tape, points, max_steps=4000):
         self.tape = list(tape)
@@ -87,7 +120,7 @@ class _World(object):
         self.vts = []
         self.current = None
         self.killed = False
-        self.trace = []          # (choice, options) at every point with >= 2 options
+        self.trace = []          # (choice, options) at every step with >= 2 enabled threads
         self.steps = 0
         self.max_steps = max_steps
         self.events = 0          # global event counter (invocations / returns)
@@ -98,8 +131,9 @@ class _World(object):
         else:
             self.main = threading.Semaphore(0)
 
-    def spawn(self, body):
+    def spawn(self, body, n_calls):
         vt = _VT(len(self.vts))
+        vt.calls_left = n_calls
 
         def runner():
             if not self.use_gl:
@@ -109,15 +143,17 @@ class _World(object):
                     body(vt)
             except _Killed:
                 pass
-            except BaseException as e:  # noqa: driver exceptions are reported by the body itself
-                vt.error = e
             finally:
                 vt.done = True
                 if not self.use_gl:
                     self.main.release()
 
         if self.use_gl:
-            vt.gl = _greenlet.greenlet(runner, parent=self.main_gl)
+            slot = _take_slots(self.main_gl, len(self.vts) + 1)[len(self.vts)]
+            if slot.job is not None:
+                raise HarnessError("virtual thread slot busy")
+            slot.job = runner
+            vt.gl = slot.gl
         else:
             vt.sem = threading.Semaphore(0)
             vt.thread = threading.Thread(target=runner, name="vt%d" % vt.idx)
@@ -138,19 +174,23 @@ class _World(object):
         return threading.current_thread() is vt.thread
 
     # --- called from virtual threads
-    def point(self, kind):
+    def point(self, kind, want=None):
         vt = self.current
         if not self.inside(vt):
             return
         if self.killed:
             raise _Killed()
-        if kind not in self.points and vt.blocked_on is None:
+        if kind not in self.points and (want is None or want.holder is None):
             return
-        if self.use_gl:
-            self.main_gl.switch()
-        else:
-            self.main.release()
-            vt.sem.acquire()
+        vt.pending, vt.want = kind, want
+        try:
+            if self.use_gl:
+                self.main_gl.switch()
+            else:
+                self.main.release()
+                vt.sem.acquire()
+        finally:
+            vt.want = None
         if self.killed:
             raise _Killed()
 
@@ -163,9 +203,9 @@ class _World(object):
             self.main.acquire()
 
     # --- scheduler loop
-    def run(self):
+    def run(self, chooser=None):
         while True:
-            runnable = [t for t in self.vts if not t.done and (t.blocked_on is None or t.blocked_on.holder is None)]
+            runnable = [t for t in self.vts if t.enabled()]
             if not runnable:
                 break
             self.steps += 1
@@ -176,15 +216,19 @@ class _World(object):
             if cur is not None and cur in runnable:
                 runnable.remove(cur)
                 runnable.insert(0, cur)
-            if len(runnable) > 1:
-                if self.pos < len(self.tape):
-                    c = self.tape[self.pos] % len(runnable)
-                    self.pos += 1
-                else:
-                    c = 0
-                self.trace.append((c, len(runnable)))
+            if chooser is not None:
+                nxt = chooser(runnable)
+                if nxt is None:
+                    self.status = "pruned"
+                    break
+                c = runnable.index(nxt)
+            elif len(runnable) > 1 and self.pos < len(self.tape):
+                c = self.tape[self.pos] % len(runnable)
+                self.pos += 1
             else:
                 c = 0
+            if len(runnable) > 1:
+                self.trace.append((c, len(runnable)))
             self._resume(runnable[c])
         stuck = [t for t in self.vts if not t.done]
         if stuck and self.status == "ok":
@@ -214,21 +258,18 @@ class _VLock(object):
         if not w.inside(vt):
             self.holder = "main"
             return True
-        w.point("acquire")
-        while self.holder is not None:
-            if not blocking:
-                return False
-            vt.blocked_on = self
-            try:
-                w.point("acquire")
-            finally:
-                vt.blocked_on = None
+        if not blocking and self.holder is not None:
+            return False
+        w.point("acquire", want=self)
+        if self.holder is not None:
+            raise HarnessError("virtual lock handed to two threads")
         self.holder = vt
         return True
 
     def release(self):
-        self.holder = None
         self.world.point("release")
+        self.holder = None
+        self.world.point("released")
 
     def locked(self):
         return self.holder is not None
@@ -298,8 +339,8 @@ def us_floor(reading):
     return fr.numerator // fr.denominator
 
 
-def run_history(case):
-    """Runs one history.  Returns dict(calls, trace, status, errors, warnings)."""
+def run_history(case, chooser=None):
+    """Runs one history.  Returns dict(calls, trace, status, errors, warnings, reads)."""
     import cassandra.timestamps as T
     cfg = case.get("cfg") or {}
     world = _World(case.get("schedule") or [], case.get("points") or ALL_POINTS)
@@ -316,12 +357,13 @@ def run_history(case):
     def make_body(n_calls):
         def body(vt):
             for k in range(n_calls):
+                vt.calls_left = n_calls - k - 1
                 rec = {"thread": vt.idx, "k": k, "inv": world.tick(), "ret": None, "value": None, "readings": []}
                 calls.append(rec)
                 current_call[vt.idx] = rec
                 try:
                     v = gen()
-                except _Killed:
+                except HarnessError:
                     raise
                 except Exception as e:  # noqa
                     errors.append((vt.idx, k, e))
@@ -336,8 +378,8 @@ def run_history(case):
     T.time, T.log = clock, vlog
     try:
         for n in case["threads"]:
-            world.spawn(make_body(n))
-        world.run()
+            world.spawn(make_body(n), n)
+        world.run(chooser)
     finally:
         T.time, T.log = saved
     return {"calls": calls, "trace": world.trace, "status": world.status, "errors": errors,
@@ -345,15 +387,106 @@ def run_history(case):
 
 
 # ----------------------------------------------------------------------------
+# systematic exploration: depth-first over the scheduler's choices with sleep sets
+# ----------------------------------------------------------------------------
+
+_SHARED = frozenset(["lock", "clock", "last"])
+
+
+def _footprint(vt):
+    """Shared objects the next segment of a parked thread touches.  With every point kind enabled each
+    shared operation is preceded by its own pre-emption point, so the segment that starts at a point
+    performs exactly that operation (plus, after a release, the return of the call and the invocation
+    of the thread's next call)."""
+    k = vt.pending
+    if k == "start":
+        return frozenset(["inv"])
+    if k in ("acquire", "release"):
+        return frozenset(["lock"])
+    if k == "clock":
+        return frozenset(["clock"])
+    if k in ("last", "log"):          # the logging segment also writes _last_warn: keep it ordered with `last`
+        return frozenset(["last"])
+    if k == "released":
+        return frozenset(["ret", "inv"]) if vt.calls_left > 0 else frozenset(["ret"])
+    raise HarnessError("unknown pending operation %r" % (k,))
+
+
+def _dependent(a, b):
+    if a & b & _SHARED:
+        return True
+    return ("inv" in a and "ret" in b) or ("ret" in a and "inv" in b)
+
+
+def explore(base, cap):
+    """Yields (case, history) for one representative of every class of interleavings that differ in
+    the order of two dependent steps (sleep-set partial-order reduction, Godefroid 1996).  Two steps are
+    dependent when they touch the same shared object (the lock, the clock, `last`) or are an
+    invocation and a return (the real-time order the oracle looks at)."""
+    stack = []     # frames: enabled [idx], fp {idx: footprint}, sleep set(idx), done [idx], cur idx
+    runs = 0
+    while True:
+        depth = [0]
+
+        def chooser(runnable):
+            d = depth[0]
+            depth[0] += 1
+            if d < len(stack):
+                fr = stack[d]
+            else:
+                fp = dict((t.idx, _footprint(t)) for t in runnable)
+                if d == 0:
+                    sleep = set()
+                else:
+                    par = stack[d - 1]
+                    tfp = par["fp"][par["cur"]]
+                    sleep = set(u for u in (par["sleep"] | set(par["done"]))
+                                if u != par["cur"] and u in fp and not _dependent(par["fp"][u], tfp))
+                cands = [t.idx for t in runnable if t.idx not in sleep]
+                if not cands:
+                    return None
+                fr = {"enabled": [t.idx for t in runnable], "fp": fp, "sleep": sleep, "done": [], "cur": cands[0]}
+                stack.append(fr)
+            for t in runnable:
+                if t.idx == fr["cur"]:
+                    return t
+            raise HarnessError("exploration lost determinism")
+
+        case = dict(base)
+        h = run_history(case, chooser)
+        runs += 1
+        if h["status"] != "pruned":
+            case["schedule"] = [c for c, _ in h["trace"]]
+            yield case, h
+        if runs >= cap:
+            return
+        while stack:
+            fr = stack[-1]
+            fr["done"].append(fr["cur"])
+            cands = [u for u in fr["enabled"] if u not in fr["sleep"] and u not in fr["done"]]
+            if cands:
+                fr["cur"] = cands[0]
+                break
+            stack.pop()
+        if not stack:
+            return
+
+
+# ----------------------------------------------------------------------------
 # oracle
 # ----------------------------------------------------------------------------
 
-_LAST = {"trace": None}
+_MEMO = {"case": None, "hist": None}
 
 
 def interpret_history(case, ctx):
-    h = run_history(case)
-    _LAST["trace"] = h["trace"]
+    # run_history is a pure function of the case; the enumeration has just executed this very case
+    # object to discover it, so its history is reused instead of being computed a second time
+    if _MEMO["case"] is case:
+        h = _MEMO["hist"]
+    else:
+        h = run_history(case)
+    _MEMO["case"] = _MEMO["hist"] = None
     nthreads = len(case["threads"])
     tfeat = "threads=1" if nthreads == 1 else "threads>1"
     for (ti, k, e) in h["errors"]:
@@ -450,24 +583,10 @@ def _sched_cases(chunk):
     for first in firsts:
         for rest in itertools.product(ALPHABET, repeat=n - 1):
             clock = [u / 1e6 for u in (first,) + rest]
-            prefix = []
-            count = 0
-            while True:
-                case = {"threads": threads, "cfg": cfg, "clock": clock, "schedule": prefix}
-                _LAST["trace"] = None
+            base = {"threads": threads, "cfg": cfg, "clock": clock, "schedule": []}
+            for case, h in explore(base, SCHEDULE_CAP):
+                _MEMO["case"], _MEMO["hist"] = case, h
                 yield case
-                trace = _LAST["trace"]
-                if trace is None:
-                    raise HarnessError("enumeration lost step with interpret()")
-                count += 1
-                if count >= SCHEDULE_CAP:
-                    break
-                i = len(trace) - 1
-                while i >= 0 and trace[i][0] + 1 >= trace[i][1]:
-                    i -= 1
-                if i < 0:
-                    break
-                prefix = [c for c, _ in trace[:i]] + [trace[i][0] + 1]
 
 
 # ----------------------------------------------------------------------------
